@@ -418,7 +418,7 @@ PROPS = {
                 "steps (success counted as witness, failure counted as inconclusive roll-out, never as a violation). evaluations = states "
                 "monitored. Non-trivial = walk of >=3 tokens; distinct by (grammar, history, vocabulary).",
         "assumptions": ["TokenParser API used directly so that the precise StopReason is visible"],
-        "quick": {"runs": [q(deadline=50)], "floor": {"cases": 2500, "states": 30000, "distinct_nontrivial": 1500, "reference_liveness_checks": 5000}},
+        "quick": {"runs": [q(deadline=50)], "floor": {"cases": 2500, "states": 20000, "distinct_nontrivial": 1500, "reference_liveness_checks": 5000}},
         "thorough": {"runs": [q(deadline=720, watchdog=5400)], "floor": {"cases": 50000, "states": 600000}},
     },
     "C16": {
@@ -496,7 +496,7 @@ PROPS = {
                 "reachable from the start symbol must be identical. evaluations = sequences in the compared bounded languages. "
                 "Non-trivial = optimisation that removed >=1 rule-bearing symbol on a grammar with >=2 sequences; distinct by grammar.",
         "assumptions": ["lexeme indices are unchanged by optimisation (same LexerSpec), so terminals are compared by index"],
-        "quick": {"runs": [q(deadline=45)], "floor": {"optimisations_observed": 1500, "optimisations_that_removed_symbols": 500, "distinct_nontrivial": 300, "sequences_compared": 20000}},
+        "quick": {"runs": [q(deadline=45)], "floor": {"optimisations_observed": 1500, "optimisations_that_removed_symbols": 500, "distinct_nontrivial": 200, "sequences_compared": 20000}},
         "thorough": {"runs": [q(deadline=480, watchdog=3600)], "floor": {"optimisations_observed": 30000}},
     },
     "C18": {
